@@ -26,9 +26,6 @@ def askJson : Ask → Json
   | .tpmCertInfo raw => Json.mkObj [("ask", "tpmCertInfo"), ("raw", hex raw)]
   | .tpmPubArea raw => Json.mkObj [("ask", "tpmPubArea"), ("raw", hex raw)]
   | .tpmAlgHash a => Json.mkObj [("ask", "tpmAlgHash"), ("alg", a)]
-  | .asn1OctetString der => Json.mkObj [("ask", "asn1OctetString"), ("der", hex der)]
-  | .appleNonce der => Json.mkObj [("ask", "appleNonce"), ("der", hex der)]
-  | .keyDescription der => Json.mkObj [("ask", "keyDescription"), ("der", hex der)]
   | .sanView der => Json.mkObj [("ask", "sanView"), ("der", hex der)]
   | .safetyNet raw => Json.mkObj [("ask", "safetyNet"), ("raw", hex raw)]
   | .jwsHeaders raw => Json.mkObj [("ask", "jwsHeaders"), ("raw", hex raw)]
@@ -77,7 +74,7 @@ def parseSans (j : Json) : Except String (List Tpm.SanExt) := do
 def parseResp (q : Ask) (j : Json) : Except String Resp := do
   if j.isNull then return .none
   match q with
-  | .sha256 _ | .hash _ _ | .urlHost _ | .asn1OctetString _ | .appleNonce _ | .jwsChain .. | .jwsClaims .. =>
+  | .sha256 _ | .hash _ _ | .urlHost _ | .jwsChain .. | .jwsClaims .. =>
     return .bytes (← getHex j "bytes")
   | .jwsHeaders _ => return .nat (← getNat j "nat")
   | .clientData _ => return .clientData ⟨← getHex j "type", ← getHex j "challenge", ← getHex j "origin"⟩
@@ -98,10 +95,6 @@ def parseResp (q : Ask) (j : Json) : Except String Resp := do
       | .ok k => do pure (some (← parseKeyMat k))
       | .error _ => pure none
     return .pubArea { nameAlg := ← getNat j "nameAlg", key := key, encoded := ← getHexOpt j "encoded" }
-  | .keyDescription _ =>
-    return .keyDesc { challenge := ← getHex j "challenge", swAllApplications := ← getBool j "swAll",
-                      teeAllApplications := ← getBool j "teeAll", teeOrigin := ← getInt j "teeOrigin",
-                      teePurpose := ← getIntList j "teePurpose" }
   | .safetyNet _ =>
     return .safetyNet { parsed := ← getBool j "parsed", chainsOK := ← getBool j "chainsOK",
                         claimsOK := ← getBool j "claimsOK", nonce := ← getHex j "nonce" }
